@@ -181,4 +181,18 @@ static void resolve_symbols(int argc, char** argv, int first) {
 #endif
 }
 
+
+/* an ordinary program may exit with buffered output on a stream whose FILE object and buffer came from malloc: exit() flushes the
+   streams AFTER the library destructors have run, so the allocator must not have given that memory back by then
+   (T_OVERRIDE_EXITFILE names the file; the check reads it back after the process has ended).  Call right before `return 0` of main. */
+static void leave_buffered_stream(long n) {
+  const char* path = getenv("T_OVERRIDE_EXITFILE");
+  if (path == NULL) return;
+  FILE* ef = fopen(path, "w");
+  if (ef == NULL) return;
+  char* eb = (char*)malloc(1 << 16);
+  if (eb != NULL) setvbuf(ef, eb, _IOFBF, 1 << 16);
+  fprintf(ef, "written before exit %ld\n", n);
+}
+
 #endif
